@@ -1299,6 +1299,7 @@ def theory_BER(
         S_sh_i = 2 * e * np.array([mu_OFF, mu_ON]) * BW_el * R_L # shot noise variance, in [V^2]
         
         s = (S_th + S_sig_ase_i + S_ase_ase + S_sh_i)**0.5   # santandar desviation of ON and OFF slots
+        s = np.maximum(s, np.finfo(float).tiny**0.5)         # a noiseless slot (T=0, ER=inf, no EDFA) is the limit s -> 0+: keeps (x-mu)/s defined
 
         if modulation.lower() == 'ppm':
             if M is None:
